@@ -75,6 +75,12 @@ CHECKS = {
         "technique": SMT + "; symbolic havoc state through the Result dispatch",
         "design_ref": "DESIGN.md section 5 (C16)",
     },
+    "C08": {
+        "text": "Bounded symbolic check: Mesh.Translate / Rotate / Symmetry run with a symbolic translation, a symbolic rotation angle (algebraic pair c,s with c^2+s^2=1; enumerated axes) and a symbolic reflection offset on real meshes of every element type; the measure of the moved mesh, the closure of the boundary and the flux of the position vector (area-weighted normals, no square root) are polynomial identities in these symbols. Point location: Evaluate_dofsValues_at_coordinates with SYMBOLIC query points (interior / edge / node, all batch sizes 1-4) and symbolic polynomial field coefficients reproduces the polynomial (membership tests become path conditions).",
+        "note": "Trusted: Sym arithmetic with reduction modulo c^2+s^2=1, z3. Outside: iterative inverse map of distorted QUAD/HEXA (scipy least_squares), KD-tree search (elements passed explicitly), MeshIO boundary reconstruction, surface elements embedded in 3-D (square-root frames). Known findings: 2-D boundary normals inward; extruded 3-D meshes do not close (inward base face); mirror keeps connectivity.",
+        "technique": SMT + "; symbolic rigid-motion parameters and symbolic query points",
+        "design_ref": "DESIGN.md section 5 (C08)",
+    },
 }
 
 NOT_APPLICABLE = {
